@@ -900,8 +900,11 @@ export class RegexRuntype extends BaseRuntype {
     return generateHashFromString(this.description);
   }
   hash256(ctx: Hash256Context): void {
+    // the expression decides what is accepted; the description is a rendering of it that two different
+    // template literal types can share (`${"a" | "b"}x` and the literal text `("a" | "b")x`)
     ctx.writer.updateTag("regex");
-    ctx.writer.updateString(this.description);
+    ctx.writer.updateString(this.regex.source);
+    ctx.writer.updateString(this.regex.flags);
   }
 }
 
